@@ -349,7 +349,8 @@ def typestate(ctx, g, body, src_idx, dst_idx, rank_writers):
                         res = True
             if not dest[1]:
                 if dest[0] == 0:
-                    ret = '?call'
+                    # `x?` returning early: from_residual builds the Err (or None) that is returned
+                    ret = 'Err' if call.qname == 'std::ops::FromResidual::from_residual' and 'Result' in body.local_ty(0) else '?call'
                 elif body.local_ty(dest[0]) == 'bool':
                     if res is None:
                         env.pop(dest[0], None)
